@@ -11,7 +11,9 @@ Property theorems only.  They are about the executable definitions of `Core/Torc
 `(shape, flat row-major data)`; `x.WF` says the data has as many entries as the shape announces.
 
 Where the full-strength statement is false of the code it is kept in a comment, a `…_partial` version carries the forced
-hypothesis and a `…_counterexample` proves the negation at a concrete witness (`sum_except_batch`).
+hypothesis and a `…_counterexample` proves the negation at a concrete witness (only `split_leading_dim` with an inferred
+`-1` on 0-element tensors is left in that state; `sum_except_batch`, `merge_leading_dims`, `repeat_rows` hold in full
+since the `fix:` commits a69477f and 8b73dff).
 -/
 open NF NF.TU
 
@@ -46,22 +48,18 @@ theorem tile_typeError (x : T α) (v : PyVal) (h : isPositiveInt v = false ∨ i
 
 /-! ## repeat_rows -/
 
-/-- `repeat_rows(x, n)` on a tensor `[s0] ++ rest` with non-empty rows: shape `[s0*n] ++ rest`, rows repeated consecutively -/
-theorem repeat_rows_ok_partial (x : T α) (s0 : ℕ) (rest : List ℕ) (n : ℕ) (hx : x.shape = s0 :: rest) (hn : 0 < n)
-    (hp : 0 < prodL rest) :
+/-- `repeat_rows(x, n)` on ANY tensor `[s0] ++ rest` (also with empty rows): shape `[s0*n] ++ rest`, rows repeated consecutively -/
+theorem repeat_rows_ok (x : T α) (s0 : ℕ) (rest : List ℕ) (n : ℕ) (hx : x.shape = s0 :: rest) (hn : 0 < n) :
     repeatRows x (.int n) = .ok ⟨(s0 * n) :: rest, (Pairing.repeatRows (rowsOf s0 rest x.data) n).flatten⟩ := by
   have h1 : isPositiveInt (.int (n : Int)) = true := by simp [isPositiveInt, asInt]; omega
   have h2 : isPositiveInt (.int 2) = true := by decide
   have h3 : natOf (.int 2) = 2 := by decide
   have hn' : natOf (.int (n : Int)) = n := by simp [natOf, asInt]
-  have hmod : s0 * (n * prodL rest) % prodL rest = 0 := by
-    rw [← Nat.mul_assoc]; exact Nat.mul_mod_left _ _
-  have hdiv : s0 * (n * prodL rest) / prodL rest = s0 * n := by
-    rw [← Nat.mul_assoc]; exact Nat.mul_div_cancel _ hp
   simp only [repeatRows, h1, hx, hn', mergeLeading, h2, h3, Bool.not_true, Bool.false_eq_true, if_false, List.length_cons]
   have hlen : ¬ (2 > rest.length + 1 + 1) := by omega
-  simp only [hlen, if_false, List.drop_succ_cons, List.drop_zero, reshape, T.numel, prodL]
-  rw [inferSize_infer_cons _ rest hp hmod, hdiv]
+  have hnum : s0 * (n * (prodL rest)) = prodL ((s0 * (n * 1)) :: rest) := by simp [prodL, Nat.mul_assoc]
+  simp only [hlen, if_false, List.drop_succ_cons, List.drop_zero, List.take_succ_cons, List.take_zero, reshape, T.numel, prodL]
+  rw [hnum, inferSize_exact]
   simp [Pairing.repeatRows, List.flatMap_def]
 
 /-- **repeat_rows index law** (row level): row `i*n + j` of the result is row `i` of `x` -/
@@ -94,35 +92,53 @@ theorem repeat_rows_spec (x : T α) (s0 : ℕ) (rest : List ℕ) (n i j c : ℕ)
 theorem repeat_rows_typeError (x : T α) (v : PyVal) (h : isPositiveInt v = false) : repeatRows x v = .error .typeError := by
   simp [repeatRows, h]
 
-/-! ## merge_leading_dims / split_leading_dim
+/-! ## merge_leading_dims / split_leading_dim -/
 
-Full-strength statements (FALSE of the code for tensors whose trailing block is empty, i.e. some `shape[k:]` entry is 0):
-  `merge_leading_dims(x, k)` succeeds for every `1 ≤ k ≤ ndim`, and `repeat_rows(x, n)` for every `n ≥ 1`, `ndim ≥ 1`.
-`torch.reshape(x, [-1, …, 0, …])` cannot infer the `-1` of a 0-element tensor and raises `RuntimeError`; the theorems
-below therefore carry `0 < prod (shape[k:])` (`…_partial`) and `empty_trailing_counterexample` is the witness. -/
-
-/-- **merge then split is the identity**: for `1 ≤ k ≤ ndim` (and non-empty trailing block) merging the first `k`
-    dimensions gives shape `[prod (shape[:k])] ++ shape[k:]` with the same row-major data, and splitting that leading
-    dimension back into `shape[:k]` returns `x` itself. -/
-theorem merge_split_id_partial (x : T α) (k : ℕ) (hk1 : 0 < k) (hk : k ≤ x.shape.length) (hp : 0 < prodL (x.shape.drop k)) :
-    ∃ m, mergeLeading x (.int k) = .ok m ∧ m.shape = prodL (x.shape.take k) :: x.shape.drop k ∧ m.data = x.data ∧
-      splitLeading m ((x.shape.take k).map Int.ofNat) = .ok x := by
+/-- `merge_leading_dims(x, k)` succeeds for EVERY `1 ≤ k ≤ ndim` (also when a trailing dimension is 0): shape
+    `[prod (shape[:k])] ++ shape[k:]`, same row-major data -/
+theorem merge_ok (x : T α) (k : ℕ) (hk1 : 0 < k) (hk : k ≤ x.shape.length) :
+    mergeLeading x (.int k) = .ok ⟨prodL (x.shape.take k) :: x.shape.drop k, x.data⟩ := by
   have h1 : isPositiveInt (.int (k : Int)) = true := by simp [isPositiveInt, asInt]; omega
   have hk' : natOf (.int (k : Int)) = k := by simp [natOf, asInt]
-  have hnum : x.numel = prodL (x.shape.take k) * prodL (x.shape.drop k) := (prodL_take_drop x.shape k).symm
-  have hmod : x.numel % prodL (x.shape.drop k) = 0 := by rw [hnum]; exact Nat.mul_mod_left _ _
-  have hdiv : x.numel / prodL (x.shape.drop k) = prodL (x.shape.take k) := by rw [hnum]; exact Nat.mul_div_cancel _ hp
   have hnot : ¬ (k > x.shape.length) := by omega
-  refine ⟨⟨prodL (x.shape.take k) :: x.shape.drop k, x.data⟩, ?_, rfl, rfl, ?_⟩
-  · simp only [mergeLeading, h1, hk', hnot, Bool.not_true, Bool.false_eq_true, if_false, reshape]
-    rw [inferSize_infer_cons _ _ hp hmod, hdiv]
-  · simp only [splitLeading, reshape, T.numel, List.drop_succ_cons, List.drop_zero, prodL]
-    rw [← List.map_append, List.take_append_drop, prodL_take_drop, inferSize_exact]
+  have hnum : x.numel = prodL (prodL (x.shape.take k) :: x.shape.drop k) := by
+    simp only [T.numel, prodL]; exact (prodL_take_drop x.shape k).symm
+  simp only [mergeLeading, h1, hk', hnot, Bool.not_true, Bool.false_eq_true, if_false, reshape]
+  rw [hnum, inferSize_exact]
 
-/-- **split then merge is the identity**: if `split_leading_dim(x, sh)` succeeds (`sh` non-empty, possibly with one `-1`;
-    trailing block non-empty) it keeps the data, produces `s ++ shape[1:]` with `prod s = shape[0]`, and merging the
-    `len(sh)` leading dimensions of the result returns `x` itself. -/
-theorem split_merge_id_partial (x y : T α) (s0 : ℕ) (tail : List ℕ) (sh : List Int) (hx : x.shape = s0 :: tail)
+/-- **merge then split is the identity**, all shapes: splitting the merged leading dimension back into `shape[:k]`
+    returns `x` itself. -/
+theorem merge_split_id (x : T α) (k : ℕ) (hk1 : 0 < k) (hk : k ≤ x.shape.length) :
+    ∃ m, mergeLeading x (.int k) = .ok m ∧ m.shape = prodL (x.shape.take k) :: x.shape.drop k ∧ m.data = x.data ∧
+      splitLeading m ((x.shape.take k).map Int.ofNat) = .ok x := by
+  refine ⟨_, merge_ok x k hk1 hk, rfl, rfl, ?_⟩
+  simp only [splitLeading, reshape, T.numel, List.drop_succ_cons, List.drop_zero, prodL]
+  rw [← List.map_append, List.take_append_drop, prodL_take_drop, inferSize_exact]
+
+/-- **split then merge is the identity**, all shapes, for an explicit split `s` of the leading dimension
+    (`prod s = shape[0]`, `s` non-empty): the split succeeds with shape `s ++ shape[1:]` and the same data, and merging
+    its `len(s)` leading dimensions returns `x` itself. -/
+theorem split_merge_id (x : T α) (s0 : ℕ) (tail s : List ℕ) (hx : x.shape = s0 :: tail) (hs : prodL s = s0) (hne : s ≠ []) :
+    splitLeading x (s.map Int.ofNat) = .ok ⟨s ++ tail, x.data⟩ ∧
+    mergeLeading ⟨s ++ tail, x.data⟩ (.int s.length) = .ok x := by
+  constructor
+  · have hnum : x.numel = prodL (s ++ tail) := by simp [T.numel, hx, prodL, prodL_append, hs]
+    simp only [splitLeading, reshape, hx, List.drop_succ_cons, List.drop_zero]
+    rw [← List.map_append, hnum, inferSize_exact]
+  · have hlen : 0 < s.length := List.length_pos_of_ne_nil hne
+    have := merge_ok (⟨s ++ tail, x.data⟩ : T α) s.length hlen (by simp)
+    rw [this]
+    simp only [List.take_left', List.drop_left', hs]
+    cases x; simp_all
+
+/- Full-strength statement for a split shape with an inferred `-1` (FALSE of the code on 0-element tensors):
+   `split_leading_dim(x, sh)` succeeds whenever `sh` with its `-1` filled in multiplies to `shape[0]`, and
+   merging gives `x` back.  `torch.reshape` cannot infer a `-1` for a 0-element tensor (RuntimeError) and cannot check an explicit shape
+   against `shape[0]` when the trailing block is empty; hence `0 < prod (shape[1:])` below. -/
+
+/-- split (possibly with one `-1`) then merge, non-empty trailing block: whenever the split succeeds it keeps the data,
+    produces `s ++ shape[1:]` with `prod s = shape[0]`, and merging the `len(sh)` leading dimensions returns `x` itself. -/
+theorem split_merge_id_infer_partial (x y : T α) (s0 : ℕ) (tail : List ℕ) (sh : List Int) (hx : x.shape = s0 :: tail)
     (hp : 0 < prodL tail) (hsh : sh ≠ []) (h : splitLeading x sh = .ok y) :
     y.data = x.data ∧ (∃ s : List ℕ, s.length = sh.length ∧ y.shape = s ++ tail ∧ prodL s = s0) ∧
       mergeLeading y (.int sh.length) = .ok x := by
@@ -140,24 +156,23 @@ theorem split_merge_id_partial (x y : T α) (s0 : ℕ) (tail : List ℕ) (sh : L
         rw [← prodL_append, ← hs', hprod, hnum]
       exact Nat.eq_of_mul_eq_mul_right hp this
     have hlen : 0 < sh.length := List.length_pos_of_ne_nil hsh
-    have h1 : isPositiveInt (.int (sh.length : Int)) = true := by simp [isPositiveInt, asInt]; omega
-    have hk' : natOf (.int (sh.length : Int)) = sh.length := by simp [natOf, asInt]
-    have hdrop : s'.drop sh.length = tail := by
-      rw [hs']; exact List.drop_left' (by simp)
-    have hnot : ¬ (sh.length > s'.length) := by rw [hs']; simp
-    have hmod : prodL s' % prodL tail = 0 := by rw [hprod, hnum]; exact Nat.mul_mod_left _ _
-    have hdiv : prodL s' / prodL tail = s0 := by rw [hprod, hnum]; exact Nat.mul_div_cancel _ hp
     refine ⟨by rw [hy], ⟨sh.map (fillDim q), by simp, by rw [hy]; exact hs', hps⟩, ?_⟩
-    rw [hy]
-    simp only [mergeLeading, h1, hk', hnot, Bool.not_true, Bool.false_eq_true, if_false, reshape, T.numel, hdrop]
-    rw [inferSize_infer_cons _ _ hp hmod, hdiv]
+    have hm := merge_ok (⟨s', x.data⟩ : T α) sh.length hlen (by rw [hs']; simp)
+    rw [hy, hm]
+    have htake : s'.take sh.length = sh.map (fillDim q) := by rw [hs']; exact List.take_left' (by simp)
+    have hdrop : s'.drop sh.length = tail := by rw [hs']; exact List.drop_left' (by simp)
+    simp only [htake, hdrop, hps]
     cases x; simp_all
 
-/-- witness for the forced hypothesis: a `[2, 0]` tensor can neither be merged (even with `num_dims = 1`, a no-op) nor have
-    its rows repeated -/
-theorem empty_trailing_counterexample :
-    mergeLeading (⟨[2, 0], []⟩ : T Int) (.int 1) = .error .runtime ∧
-    repeatRows (⟨[2, 0], []⟩ : T Int) (.int 3) = .error .runtime := by decide
+/-- witnesses for the forced hypothesis: on a `[6, 0]` tensor an inferred `-1` raises, and a wrong explicit split is accepted -/
+theorem split_infer_empty_counterexample :
+    splitLeading (⟨[6, 0], []⟩ : T Int) [-1, 3] = .error .runtime ∧
+    splitLeading (⟨[6, 0], []⟩ : T Int) [2, 2] = .ok ⟨[2, 2, 0], []⟩ := by decide
+
+/-- regression witnesses of the fixed finding G3: a `[2, 0]` tensor can be merged and have its rows repeated -/
+theorem empty_trailing_ok :
+    mergeLeading (⟨[2, 0], []⟩ : T Int) (.int 1) = .ok ⟨[2, 0], []⟩ ∧
+    repeatRows (⟨[2, 0], []⟩ : T Int) (.int 3) = .ok ⟨[6, 0], []⟩ := by decide
 
 /-- **what merging means for positions**: the element at multi-index `a ++ b` of a tensor of shape `s ++ t` is the element
     at multi-index `[flatIdx s a] ++ b` of the merged tensor of shape `[prod s] ++ t` (same row-major offset, and the data
@@ -173,14 +188,10 @@ theorem merge_error_contract (x : T α) (v : PyVal) :
   · intro h; simp [mergeLeading, h]
   · intro h h2; simp [mergeLeading, h, h2]
 
-/-! ## sum_except_batch
+/-! ## sum_except_batch — "summing all but the batch dimensions preserves the batch", every `k ≥ 0` -/
 
-Full-strength statement (FALSE of the code, see `sum_except_batch_counterexample`):
-  `∀ k ≤ ndim, sumExceptBatch x k = ok ⟨shape[:k], block sums⟩` — "the batch is preserved".
-It fails exactly when `1 ≤ ndim ≤ k`: `reduce_dims` is then empty and `torch.sum(x, dim=[])` reduces over everything. -/
-
-/-- shape and values for `k < ndim`: the first `k` dimensions are kept, entry `i` is the sum of block `i` -/
-theorem sum_except_batch_shape_partial (x : T Int) (k : ℕ) (hk : k < x.shape.length) :
+/-- values for `k < ndim`: the first `k` dimensions are kept, entry `i` is the sum of block `i` -/
+theorem sum_except_batch_reduce (x : T Int) (k : ℕ) (hk : k < x.shape.length) :
     sumExceptBatch x (.int k) =
       .ok ⟨x.shape.take k, (chunkRows (prodL (x.shape.take k)) (prodL (x.shape.drop k)) x.data).map List.sum⟩ := by
   have h1 : isNonnegInt (.int (k : Int)) = true := by simp [isNonnegInt, asInt]
@@ -191,38 +202,35 @@ theorem sum_except_batch_shape_partial (x : T Int) (k : ℕ) (hk : k < x.shape.l
     | succ m => simp [List.range'_succ]
   simp [sumExceptBatch, h1, hk', hne]
 
-theorem sum_except_batch_value_partial (x : T Int) (k i : ℕ) (hk : k < x.shape.length) (hi : i < prodL (x.shape.take k)) :
-    ∃ y, sumExceptBatch x (.int k) = .ok y ∧ y.shape = x.shape.take k ∧
-      y.data[i]? = some (((x.data.drop (i * prodL (x.shape.drop k))).take (prodL (x.shape.drop k))).sum) := by
-  refine ⟨_, sum_except_batch_shape_partial x k hk, rfl, ?_⟩
-  simp [List.getElem?_map, chunkRows_getElem? _ _ _ i hi]
-
-/-- `num_batch_dims = 0` is fine too: the total sum, shape `[]` -/
-theorem sum_except_batch_zero (x : T Int) : sumExceptBatch x (.int 0) = .ok ⟨[], [x.data.sum]⟩ ∨
-    sumExceptBatch x (.int 0) = .ok ⟨[], (chunkRows 1 (prodL x.shape) x.data).map List.sum⟩ := by
-  by_cases h : 0 < x.shape.length
-  · right; simpa [prodL] using sum_except_batch_shape_partial x 0 h
-  · left
-    have h1 : isNonnegInt (.int 0) = true := by decide
-    have : x.shape.length = 0 := by omega
-    simp [sumExceptBatch, h1, natOf, asInt, this]
-
-/-- the code as it is: with `k ≥ ndim` every dimension is summed away (general form of the defect) -/
-theorem sum_except_batch_batch_lost (x : T Int) (k : ℕ) (hk : x.shape.length ≤ k) :
-    sumExceptBatch x (.int k) = .ok ⟨[], [x.data.sum]⟩ := by
+/-- with `k ≥ ndim` every dimension is a batch dimension and `x` itself is returned (fixed finding G1) -/
+theorem sum_except_batch_all_batch (x : T Int) (k : ℕ) (hk : x.shape.length ≤ k) :
+    sumExceptBatch x (.int k) = .ok x := by
   have h1 : isNonnegInt (.int (k : Int)) = true := by simp [isNonnegInt, asInt]
   have hk' : natOf (.int (k : Int)) = k := by simp [natOf, asInt]
   have : x.shape.length - k = 0 := by omega
   simp [sumExceptBatch, h1, hk', this]
 
-/-- witness: `sum_except_batch(tensor([0,1,2]), num_batch_dims=1)` is the scalar `3`, not `[0,1,2]` — the batch is lost -/
-theorem sum_except_batch_counterexample :
-    sumExceptBatch ⟨[3], [0, 1, 2]⟩ (.int 1) = .ok ⟨[], [3]⟩ ∧
-    sumExceptBatch ⟨[3], [0, 1, 2]⟩ (.int 1) ≠ .ok ⟨[3], [0, 1, 2]⟩ := by
-  have h := sum_except_batch_batch_lost ⟨[3], [0, 1, 2]⟩ 1 (by simp)
-  simp only [Nat.cast_one] at h
-  refine ⟨by simpa using h, ?_⟩
-  rw [h]; simp
+/-- **the batch is preserved, every `k`**: the result always has shape `shape[:k]` -/
+theorem sum_except_batch_shape (x : T Int) (k : ℕ) :
+    ∃ y, sumExceptBatch x (.int k) = .ok y ∧ y.shape = x.shape.take k := by
+  by_cases hk : k < x.shape.length
+  · exact ⟨_, sum_except_batch_reduce x k hk, rfl⟩
+  · exact ⟨x, sum_except_batch_all_batch x k (by omega), (List.take_of_length_le (by omega)).symm⟩
+
+/-- **values, every `k`**: batch entry `i` is the sum of its block (for `k ≥ ndim` the block is the entry itself) -/
+theorem sum_except_batch_value (x : T Int) (k i : ℕ) (hi : i < prodL (x.shape.take k)) :
+    ∃ y, sumExceptBatch x (.int k) = .ok y ∧
+      (k < x.shape.length →
+        y.data[i]? = some (((x.data.drop (i * prodL (x.shape.drop k))).take (prodL (x.shape.drop k))).sum)) ∧
+      (x.shape.length ≤ k → y = x) := by
+  by_cases hk : k < x.shape.length
+  · refine ⟨_, sum_except_batch_reduce x k hk, fun _ => ?_, fun h => by omega⟩
+    simp [List.getElem?_map, chunkRows_getElem? _ _ _ i hi]
+  · exact ⟨x, sum_except_batch_all_batch x k (by omega), fun h => absurd h hk, fun _ => rfl⟩
+
+/-- regression witness of the fixed finding G1: `sum_except_batch(tensor([0,1,2]), 1)` is `[0,1,2]`, not the scalar `3` -/
+theorem sum_except_batch_keeps_batch_example :
+    sumExceptBatch ⟨[3], [0, 1, 2]⟩ (.int 1) = .ok ⟨[3], [0, 1, 2]⟩ := by decide
 
 theorem sum_except_batch_typeError (x : T Int) (v : PyVal) (h : isNonnegInt v = false) :
     sumExceptBatch x v = .error .typeError := by simp [sumExceptBatch, h]
